@@ -88,6 +88,23 @@ func opKinds(ops []engine.Op) string {
 // runOracleHistory executes one history with the map oracle and reports oracle failures
 // (shrunk) as violations. Returns the engine.
 func runOracleHistory(rep *Report, cfg engine.Config, ops []engine.Op, seed int64, mode string, setup func(*engine.Engine), post func(*engine.Engine)) *engine.Engine {
+	if commitK1Model != nil {
+		// K1 of the commit protocol: every successful commit of the history vs. Model/Commit.v
+		inner := setup
+		hook := commitK1Hook(rep, commitK1Model)
+		setup = func(e *engine.Engine) {
+			if inner != nil {
+				inner(e)
+			}
+			prev := e.AfterOp
+			e.AfterOp = func(e *engine.Engine, op engine.Op, res engine.Result) {
+				if prev != nil {
+					prev(e, op, res)
+				}
+				hook(e, op, res)
+			}
+		}
+	}
 	run := func(o []engine.Op) *engine.Engine {
 		e, err := engine.RunHistory(cfg, o, setup)
 		if err != nil {
@@ -166,6 +183,7 @@ func init() {
 			return 2
 		}
 		defer m.Close()
+		commitK1Model = m
 		pageK1(rep, m, r, n/2)
 		walK1(rep, m, r, n/3)
 		writerQueueK1(rep, m, r, n)
